@@ -22,7 +22,7 @@ import time
 import traceback
 
 ROOT = os.path.dirname(os.path.dirname(os.path.abspath(__file__)))
-LEAN = os.path.join(ROOT, "lean")
+LEAN = os.environ.get("PV_LEAN_DIR") or os.path.join(ROOT, "lean")
 REPO = os.environ.get("PV_REPO", "/repo")
 EVIDENCE_DIR = os.path.join(ROOT, "evidence")
 REPLAY_DIR = os.path.join(ROOT, "replays")
